@@ -24,3 +24,5 @@ def run(F, rep):
     rep.run(lemmas.slice_hamming_lemmas, F, rep, "C15.2")
     # base iteration by reference (`for b in &x`): exact, whatever iterator type implements it
     rep.run(lemmas.container_iter_lemmas, F, rep, "C15.6", conts=("slice",), quick=(rep.tier != "thorough"))
+    # provided methods of the k-mer iterators that the crate overrides (fold, count, last, nth …) must agree with next()
+    rep.run(dt_seq.kmer_iter_override_table, F, rep, "C15.7")
